@@ -74,6 +74,24 @@ pub fn c06(args: &[String]) -> i32 {
         // a syllable variable needs a repeated syllable to match: double the first one now and then
         if case % 7 == 3 && g.rng.chance(1, 2) && !w.sylls.is_empty() { let s0 = w.sylls[0].clone(); w.sylls.insert(0, s0); }
         let lit = absent_literal(&w);
+        // focused insertions: an optional element between a mandatory context element and the planted literal, on a word that ends (or
+        // begins) exactly where the mandatory element matches
+        if case % 11 == 5 {
+            let inv = ["a", "i", "t", "n", "s", "u"]; let s1 = inv[g.rng.below(6)]; let s2 = inv[g.rng.below(6)];
+            let opt = match g.rng.below(3) { 0 => format!("({s2})"), 1 => format!("({s2},0)"), _ => format!("({{{s2}, {s1}}})") };
+            let before = g.rng.chance(2, 3);
+            let t = if before { format!("{}{s1}", g.small_word()) } else { format!("{s1}{}", g.small_word()) };
+            let Some(w2) = parse(&t) else { continue };
+            let lit2 = absent_literal(&w2);
+            let planted = if before { format!("* > e / {s1} {opt} {lit2} _") } else { format!("* > e / _ {lit2} {opt} {s1}") };
+            st.inc("c06.cases"); st.inc("c06.focused_insertion");
+            if let Out::Ok(r) = apply(&[planted.clone()], &w2) { st.inc("c06.ok"); if r != w2 {
+                let labels = labels_c06(&planted);
+                let primary = ["insertion-before-ends-with-$", "insertion-after-starts-with-boundary"].iter().find(|p| labels.contains(p));
+                let kind = match primary { Some(p) => format!("c06-changed:{p}"), None => "c06-changed:insertion-with-optional".to_string() };
+                println!("FINDING {kind} rule={planted:?} word={} got={}", word_flat(&w2, false), word_flat(&r, false)); } }
+            continue
+        }
         // focused inputs: syllables inside sets, syllable and segment variables bound and used in the input, boundaries in sets
         if case % 7 == 3 {
             let sgm = g.pick_cv(); let o = ["*", "e", "&", "[+voice]"][g.rng.below(4)];
@@ -223,6 +241,23 @@ pub fn c07(args: &[String]) -> i32 {
                 println!("FINDING c07-alpha-identity{} rule={rule:?} word={} got={}", if sec { ":stress-alpha-on-secondary" } else { "" }, word_flat(&w, false), word_flat(&r, false)); } }
         }
     }
+    // (4) a > e / %=1 _ 1 fires exactly between identical syllables (segments, stress AND tone)
+    for _ in 0..(if thorough { 40000 } else { 4000 }) {
+        let body = ["ta", "ti", "nu", "sat", "n", "ka"][g.rng.below(6)];
+        let deco = |g: &mut Gen, b: &str| -> String { format!("{}{}{}", ["", "", "ˈ", "ˌ"][g.rng.below(4)], b, ["", "", "5", "51", "3"][g.rng.below(5)]) };
+        let s1 = deco(&mut g, body);
+        let s2 = match g.rng.below(4) { 0 | 1 => s1.clone(), 2 => deco(&mut g, body), _ => { let b2 = ["ta", "ti", "nu"][g.rng.below(3)]; deco(&mut g, b2) } };
+        let text = format!("{s1}.a.{}", s2.trim_start_matches(|c| c == 'ˈ' || c == 'ˌ').to_string());
+        let text = if s2.starts_with('ˈ') || s2.starts_with('ˌ') { format!("{s1}.a{}", s2) } else { text };
+        let Some(w) = parse(&text) else { continue };
+        if w.sylls.len() != 3 { continue }
+        st.inc("c07.cases"); st.inc("c07.syll_var_context");
+        let Out::Ok(r) = apply(&["a > e / %=1 _ 1".to_string()], &w) else { continue };
+        let same = w.sylls[0] == w.sylls[2];
+        let fired = r != w;
+        if same { st.inc("c07.nontrivial"); }
+        if fired != same { println!("FINDING c07-syll-var-context rule=\"a > e / %=1 _ 1\" word={} identical_syllables={same} fired={fired}", word_flat(&w, false)); }
+    }
     // (3) A > B / X=1 _ 1 fires exactly between identical bundles
     for _ in 0..(if thorough { 60000 } else { 6000 }) {
         let x = ["C", "V", "[]", "[+voice]", "O", "N"][g.rng.below(6)];
@@ -306,8 +341,19 @@ pub fn c08(args: &[String]) -> i32 {
     let n = if thorough { 400000 } else { 30000 };
     for case in 0..n {
         let k = 1 + g.rng.below(6);
-        let rules: Vec<String> = (0..k).map(|_| if g.rng.chance(1, 2) { structural_rule(&mut g) } else { g.rule(Profile::Tame) }).collect();
-        let text = if case % 4 == 0 { format!("{}{}.{}{}", g.pick_cv(), crate::gen::TONES[g.rng.below(5)], g.small_word(), crate::gen::TONES[g.rng.below(5)]) } else { g.word() };
+        let mut rules: Vec<String> = (0..k).map(|_| if g.rng.chance(1, 2) { structural_rule(&mut g) } else { g.rule(Profile::Tame) }).collect();
+        // crafted: a substitution with more inputs than outputs whose surplus inputs are whole syllables of the word
+        let crafted = case % 9 == 4;
+        let text = if crafted {
+            let syl = |g: &mut Gen| format!("{}{}", ["p", "t", "k", "n", "s"][g.rng.below(5)], ["a", "i", "u"][g.rng.below(3)]);
+            let parts: Vec<String> = (0..3 + g.rng.below(2)).map(|_| syl(&mut g)).collect();
+            let nin = 2 + g.rng.below(2);   // input covers the first `nin` syllables
+            let inp: Vec<String> = parts[..nin.min(parts.len())].iter().flat_map(|p| p.chars().map(|c| c.to_string())).collect();
+            let nout = inp.len() / 2;
+            let out: Vec<&str> = (0..nout).map(|i| ["b", "e", "d", "o"][i % 4]).collect();
+            rules = vec![format!("{} > {}", inp.join(" "), out.join(" "))];
+            parts.join(".")
+        } else if case % 4 == 0 { format!("{}{}.{}{}", g.pick_cv(), crate::gen::TONES[g.rng.below(5)], g.small_word(), crate::gen::TONES[g.rng.below(5)]) } else { g.word() };
         let Some(w) = parse(&text) else { continue };
         if word_wf(&w).is_some() { st.inc("c08.skipped_input_not_wf"); continue }
         let groups: Vec<RuleGroup> = rules.iter().map(|r| RuleGroup::from_rules(vec![r.clone()])).collect();
